@@ -28,7 +28,7 @@ impl TCheck for C06T {
         }
     }
     fn scheds(&self, _tier: Tier) -> u64 {
-        2
+        3
     }
     fn prepare(&self, seed: u64, _tier: Tier, work: u64, scratch: &Path) -> Prepared {
         // 12 images (codec x size); many works share an image and differ by the fault
@@ -53,6 +53,7 @@ impl TCheck for C06T {
             },
             dedup: false,
             aux_seed: irng.next_u64(),
+            opts: Default::default(),
         };
         let dir = scratch.join(format!("img{image_no}"));
         let marker = dir.join("built");
@@ -125,19 +126,55 @@ impl TCheck for C06T {
             ("decode_chunk", *rng.pick(&[7u64, 64, 4096])),
             ("decomp_pool_size", *rng.pick(&[1u64, 8])),
         ];
-        let desc = json!({"image": gen::describe(&logical), "fault": fault.encode(), "fired": fired});
+        // one to three readers share the opened container: several of them can be parked on the
+        // same decoder when it fails
+        let readers = rng.range(1, 3) as usize;
+        let desc = json!({"image": gen::describe(&logical), "fault": fault.encode(), "fired": fired, "readers": readers});
         let kind = fault.kind();
         Prepared {
             desc,
             knobs,
             body: Arc::new(move |slot: &Slot| {
                 let mut rep = BodyReport::default();
+                rep.notes.insert(format!("fault:{kind}"), fired as u64);
                 // open, full dump, check: any value or error is fine; the outcome of the
                 // execution (panic / deadlock / step bound) is what is judged
-                let d = dump::dump_container(&entry, &spec);
-                rep.notes.insert(format!("fault:{kind}"), fired as u64);
-                rep.notes.insert("dump_leaves".into(), d.0.len() as u64);
-                rep.notes.insert("error_leaves".into(), d.0.iter().filter(|(_, l)| l.is_err()).count() as u64);
+                match jubako::reader::Container::new(&entry) {
+                    Err(_) => {
+                        rep.notes.insert("open_refused".into(), 1);
+                    }
+                    Ok(container) => {
+                        let container = Arc::new(container);
+                        let leaves = Arc::new(std::sync::Mutex::new((0u64, 0u64)));
+                        let mut handles = vec![];
+                        for _ in 0..readers {
+                            let container = Arc::clone(&container);
+                            let spec = Arc::clone(&spec);
+                            let leaves = Arc::clone(&leaves);
+                            let job = move || {
+                                let mut d = dump::Dump::default();
+                                dump::dump_opened(&container, &spec, &mut d);
+                                let mut l = leaves.lock().unwrap();
+                                l.0 += d.0.len() as u64;
+                                l.1 += d.0.iter().filter(|(_, x)| x.is_err()).count() as u64;
+                            };
+                            if readers == 1 {
+                                job();
+                            } else {
+                                handles.push(shuttle::thread::spawn(job));
+                            }
+                        }
+                        for h in handles {
+                            let _ = h.join();
+                        }
+                        let l = leaves.lock().unwrap();
+                        rep.notes.insert("dump_leaves".into(), l.0);
+                        rep.notes.insert("error_leaves".into(), l.1);
+                        if readers > 1 {
+                            rep.notes.insert("multi_reader_cases".into(), 1);
+                        }
+                    }
+                }
                 *slot.lock().unwrap() = rep;
             }),
             record_events: false,
